@@ -158,6 +158,12 @@ class Subjac(object):
         self._map_functions(wrt_is_input)
         self._init_val()
 
+        # the metadata is shared with any jacobian that used it before, and such a jacobian may
+        # have been dropped while it was complex (under complex step).
+        val = self.info['val']
+        if hasattr(val, 'dtype') and val.dtype.kind != np.dtype(dtype).kind:
+            self.set_dtype(np.dtype(dtype))
+
     def __repr__(self):
         """
         Return a string representation of the subjacobian.
